@@ -1,5 +1,6 @@
 import BqVerif.Model.Graph
 import BqVerif.Model.GraphExt
+import BqVerif.Model.GraphRel
 import BqVerif.Drivers.Util
 /- Driver for the `graph` machine (C20). One self-contained request per line. -/
 namespace BqVerif.Drv.Graph
@@ -127,6 +128,14 @@ def step (line : String) : String :=
          " ; ".intercalate (ls.map (fun l => showList (sortNat l)))
        s!"{sets (g.qpuToQudit remote)} # {showList (g.quditToQpuImpl remote)} # {sets (g.qpuConnImpl remote)}"
      | _, _ => "err")
+  | ["matchcheck" :: ts, ign, res] =>
+    (match parseG ts, nats ign, nats res with
+     | some g, some ign, some res => toString (validMatching g (pairs ign) (pairs res))
+     | _, _, _ => "err")
+  | ["spancheck" :: ts, [root], res] =>
+    (match parseG ts, root.toNat?, nats res with
+     | some g, some root, some res => toString (validMinSpan g root (pairs res))
+     | _, _, _ => "err")
   | _ => "bad-op"
 
 def main : IO Unit := do loop (← IO.getStdin) step
